@@ -176,8 +176,12 @@ def build_driver(profile="dev"):
     return os.path.join(HARNESS, "target", "release" if profile == "release" else "debug", "bsvdrv"), out
 
 
-def driver_eval(binary, cases, workdir, tag="cases", timeout=1800):
-    """returns list of (out, peak) with out in {OK:..., ERR, PANIC, ABORT, ...}"""
+def driver_eval(binary, cases, workdir, tag="cases", timeout=1800, stall=None):
+    """returns list of (out, peak) with out in {OK:..., ERR, PANIC, ABORT, HANG, ...}.
+    A case that makes the process die is ABORT; a case on which the driver makes no progress for `stall` seconds
+    (non-termination) is HANG: the driver is killed and restarted at the next case."""
+    if stall is None:
+        stall = int(os.environ.get("VERIF_STALL", "60"))
     cf = os.path.join(workdir, tag + ".tsv")
     rf = os.path.join(workdir, tag + ".res")
     with open(cf, "w") as f:
@@ -188,28 +192,48 @@ def driver_eval(binary, cases, workdir, tag="cases", timeout=1800):
     results = [None] * len(cases)
     start = 0
     t0 = time.time()
-    while start < len(cases):
-        rc, out = sh("ulimit -v 8000000 2>/dev/null; ulimit -s 8192; exec %s %s %s %d > /dev/null 2>&1" % (binary, cf, rf, start), timeout=max(60, timeout - (time.time() - t0)))
+
+    def absorb():
         started = None
         if os.path.exists(rf):
             for line in open(rf, encoding="utf-8", errors="replace"):
                 line = line.rstrip("\n")
                 if line.startswith("#start\t"):
-                    started = int(line.split("\t")[1])
+                    try:
+                        started = int(line.split("\t")[1])
+                    except ValueError:
+                        pass
                     continue
                 p = line.split("\t")
-                if len(p) >= 3 and p[0].isdigit():
+                if len(p) >= 3 and p[0].isdigit() and p[2].isdigit():
                     results[int(p[0])] = (p[1], int(p[2]))
-        if rc == 124:
-            fail_machinery("driver timed out")
-        # find first case without result
+        return started
+
+    while start < len(cases):
+        proc = subprocess.Popen("ulimit -v 8000000 2>/dev/null; ulimit -s 8192; exec %s %s %s %d > /dev/null 2>&1" % (binary, cf, rf, start), shell=True)
+        last_size, last_change, hung = -1, time.time(), False
+        while True:
+            try:
+                proc.wait(timeout=1.0)
+                break
+            except subprocess.TimeoutExpired:
+                pass
+            size = os.path.getsize(rf) if os.path.exists(rf) else 0
+            now = time.time()
+            if size != last_size:
+                last_size, last_change = size, now
+            elif now - last_change > stall:
+                proc.kill(); proc.wait(); hung = True
+                break
+            if now - t0 > timeout:
+                proc.kill(); proc.wait()
+                fail_machinery("driver timed out")
+        absorb()
         nxt = next((i for i in range(start, len(cases)) if results[i] is None), len(cases))
         if nxt >= len(cases):
             break
-        # the process died on case nxt (it announced it with #start)
-        results[nxt] = ("ABORT", 0)
+        results[nxt] = ("HANG" if hung else "ABORT", 0)
         start = nxt + 1
-        os.remove(rf) if False else None
     return results
 
 
@@ -402,7 +426,7 @@ def main():
         d, peak = dres[i]
         mi, ms, mk = split3(mres[i])
         if d == "PANIC": stats["panic"] += 1
-        elif d == "ABORT": stats["abort"] += 1
+        elif d in ("ABORT", "HANG"): stats["abort"] += 1
         elif d == "ERR": stats["err"] += 1
         else: stats["ok"] += 1
         if mi in ("BADOP", "BADARG") or d in ("BADOP", "BADARG"):
@@ -415,7 +439,7 @@ def main():
                 notes.append("peak memory %d > bound %d on %r" % (peak, bound, case))
         if mi == "*":
             stats["unmodelled"] = stats.get("unmodelled", 0) + 1
-        elif (not meets_spec) and mk != "-" and mk in known_classes and mi in ("OK", "ERR") and d in ("ABORT", "PANIC"):
+        elif (not meets_spec) and mk != "-" and mk in known_classes and mi in ("OK", "ERR") and d in ("ABORT", "PANIC", "HANG"):
             # a listed finding about the runtime (stack exhaustion, ...) that a Gallina model cannot exhibit
             stats["agree"] += 0
         elif d == mi:
